@@ -1060,9 +1060,17 @@ class SList:
         if isinstance(o, (list, tuple)):
             o = SArr.from_list(o)
         if not isinstance(o, SArr):
-            return False
+            from . import npshim
+            try:
+                o = npshim._arr(o)          # symbolic sequences of numbers (e.g. list(range(n)))
+            except Unsupported:
+                return False
         from . import npshim
         return npshim.array_equal(self.arr, o)
+
+    def __ne__(self, o):
+        r = self.__eq__(o)
+        return (not r) if isinstance(r, bool) else ~r
 
     __hash__ = None
 
